@@ -171,6 +171,19 @@ pub fn check_batches(c: &BatchCase) -> CaseResult {
                     ensure!(live.contains(&r.id), "batch-unknown-track", "batch {} scene {}: record continues unknown track {}", bi, scene, r.id);
                 }
             }
+            // the exclusively-owned share stored with each new observation is the one of its own
+            // scene's detection set
+            if cfg.kind.is_visual() && cfg.vis.own_use + cfg.vis.own_collect > 0.0 {
+                let rb: Vec<crate::oracle::geom::RBox> = dets.iter().map(|d| d.b.rbox()).collect();
+                for (i, r) in recs.iter().enumerate() {
+                    if let Some(v) = tr.view(r.id) {
+                        if let Some(stored) = v.gallery.first().and_then(|g| g.own_area) {
+                            let want = crate::oracle::geom::exclusive_area(&rb, i) / rb[i].area();
+                            ensure!((stored as f64 - want).abs() <= 2e-3, "batch-own-area", "batch {} scene {}: detection {} is stored with own-area share {} but {} of it is uncovered by the other detections of its scene", bi, scene, i, stored, want);
+                        }
+                    }
+                }
+            }
             got.entry(*scene).or_default().push(recs.clone());
         }
         for (_, recs) in &results {
@@ -301,7 +314,7 @@ pub fn run(env: &Env, rep: &Report) {
             r => r,
         }
     };
-    let n = env.tier.pick(600, 16_000);
+    let n = env.tier.pick(2_500, 40_000);
     for kind in [Kind::BatchSort, Kind::BatchVisualSort] {
         par_generated(rep, "batches", move || batch_case(kind), n, workers(), &check);
     }
